@@ -85,6 +85,10 @@ def run(ctx):
     ctx.mod(ANALYSIS)
     eng = Engine(ctx.repo)
     core(ctx, eng)
+    # getter; recorder; getter sequences: an instance memo of a record container must be dropped by every recorder (agstatic/memo.py)
+    from .. import memo
+    for _c in ['MethodAnalysis', 'ClassAnalysis']:
+        memo.check_class(ctx, ctx.mod(ANALYSIS), _c)
     ctx.assume("ClassAnalysis._methods[M.get_method()] is M (checked: every store into _methods has the shape d[v.get_method()] = v; "
                "Analysis.add creates one MethodAnalysis per EncodedMethod)")
     ctx.note("not decided: equality of the xref sets with the invoke instructions of concrete DEX files (run-time data); "
